@@ -21,6 +21,25 @@ type AsmSpec struct {
 	CID         bool
 	Privates    []AsmPrivate // exactly 1 for a simple font, >=1 for CID
 	FDSelect    []int        // CID: per-glyph FD index (format 0 is emitted)
+	TopExtra    []byte       // raw operand/operator bytes put at the start of the Top DICT (e.g. a FontMatrix in a chosen operand encoding)
+	FDExtra     [][]byte     // CID: raw bytes put at the start of the i-th Font DICT
+}
+
+// DictEntry encodes one DICT entry from operands and an operator; an operand given as int is written as a
+// DICT integer, a float64 as a DICT real number (also when its value is integral).
+func DictEntry(op int, operands ...any) []byte {
+	var d []byte
+	for _, x := range operands {
+		switch x := x.(type) {
+		case int:
+			d = append(d, encodeInt(x)...)
+		case float64:
+			d = append(d, encodeReal(x)...)
+		default:
+			panic("refcff: operand must be int or float64")
+		}
+	}
+	return append(d, encodeOp(op)...)
 }
 
 // encodeInt returns the shortest DICT encoding of an integer.
@@ -241,6 +260,7 @@ func Assemble(spec *AsmSpec) []byte {
 	topDict := func(charsetOff, fdSelectOff, charStringsOff, fdArrayOff, privOff int) []byte {
 		var d []byte
 		if spec.CID {
+			// (the ROS operator must come first in the Top DICT of a CID-keyed font)
 			d = append(d, encodeInt(rosRegistry)...)
 			d = append(d, encodeInt(rosOrdering)...)
 			d = append(d, encodeInt(0)...)
@@ -248,6 +268,7 @@ func Assemble(spec *AsmSpec) []byte {
 			d = append(d, encodeInt(n)...)
 			d = append(d, encodeOp(opCIDCount)...)
 		}
+		d = append(d, spec.TopExtra...)
 		d = append(d, encodeInt5(charsetOff)...)
 		d = append(d, encodeOp(opCharset)...)
 		if spec.CID {
@@ -270,6 +291,9 @@ func Assemble(spec *AsmSpec) []byte {
 		var items [][]byte
 		for i := range spec.Privates {
 			var d []byte
+			if i < len(spec.FDExtra) {
+				d = append(d, spec.FDExtra[i]...)
+			}
 			d = append(d, encodeInt5(privSize[i])...)
 			d = append(d, encodeInt5(privOff[i])...)
 			d = append(d, encodeOp(opPrivate)...)
